@@ -1,4 +1,4 @@
 From Coq Require Import Extraction ExtrOcamlBasic ExtrOcamlString.
-From GW Require Import Base GoPath Fs DavServer DavCheck Rfc4918 UploadSteps CopySteps CondWire.
+From GW Require Import Base GoPath Fs DavServer DavCheck Rfc4918 UploadSteps CopySteps MoveSteps CondWire.
 Extraction Language OCaml.
-Extraction "model_dav.ml" serve model_agrees agrees_c02 spec_c02 agrees_c03 spec_c03 agrees_c17 spec_c17 spec_ok spec_ok_reported parse_req refusals cond_refusals clean_agrees local_path_agrees clean local_path external_path upload upload_agrees upload_spec_ok geto onode_eqb sorted_otree copy_walk wire_decoded dest_decoded tags_agree tags_spec_ok match_back cdav_agree announce.
+Extraction "model_dav.ml" serve model_agrees agrees_c02 spec_c02 agrees_c03 spec_c03 agrees_c17 spec_c17 spec_ok spec_ok_reported parse_req refusals cond_refusals clean_agrees local_path_agrees clean local_path external_path upload upload_agrees upload_spec_ok geto onode_eqb sorted_otree copy_walk wire_decoded dest_decoded tags_agree tags_spec_ok match_back cdav_agree announce move_fault_agrees move_fault_loses move_steps.
